@@ -73,6 +73,7 @@ Inductive builtin :=
 | BStringGmatch
 | BMathFloor | BMathCeil | BMathAbs | BMathSqrt | BMathMin | BMathMax | BMathFmod | BMathModf
 | BMathPow | BMathType | BMathTointeger | BRawlen
+| BStringFormat                      (* ADDITIVE: string.format for the formats "%d", "%.14g", "%.17g" only *)
 | BUnsupported (name : string).       (* present in the library tables; calling it gives RUnsup *)
 
 Definition builtin_name (b : builtin) : string :=
@@ -89,6 +90,7 @@ Definition builtin_name (b : builtin) : string :=
   | BMathFloor => "floor" | BMathCeil => "ceil" | BMathAbs => "abs" | BMathSqrt => "sqrt"
   | BMathMin => "min" | BMathMax => "max" | BMathFmod => "fmod" | BMathModf => "modf" | BMathPow => "pow"
   | BMathType => "type" | BMathTointeger => "tointeger" | BRawlen => "rawlen"
+  | BStringFormat => "format"
   | BUnsupported n => n
   end.
 
@@ -816,6 +818,15 @@ Definition pure_builtin (b : builtin) (args : list value) (st : state) : res (li
       do* s, st1 <- str_arg 0 "rep" args st;
       do* n, st2 <- num_arg 1 "rep" args st1;
       ROk [VStr (string_rep s (Z.to_nat (q_floor n)))] st2
+  | BStringFormat =>
+      do* f, st1 <- str_arg 0 "format" args st;
+      do* p, st2 <- numf_arg 1 "format" args st1;
+      if String.eqb f "%d" then
+        (if q_is_int (snd p) then ROk [VStr (z_to_dec (Qnum (snd p)))] st2
+         else err "bad argument #2 to 'format' (number has no integer representation)" st2)
+      else if String.eqb f "%.14g" then ROk [VStr (fmt_g 14 (snd p))] st2
+      else if String.eqb f "%.17g" then ROk [VStr (fmt_g 17 (snd p))] st2
+      else RUnsup "string.format with a format other than %d, %.14g, %.17g" st2
   | BStringUpper =>
       do* s, st1 <- str_arg 0 "upper" args st;
       ROk [VStr (map_string upper_char s)] st1
@@ -1530,7 +1541,7 @@ Definition string_lib : list (string * value) :=
   [("len", VBuiltin BStringLen); ("sub", VBuiltin BStringSub); ("byte", VBuiltin BStringByte);
    ("char", VBuiltin BStringChar); ("rep", VBuiltin BStringRep); ("upper", VBuiltin BStringUpper);
    ("lower", VBuiltin BStringLower); ("gmatch", VBuiltin BStringGmatch);
-   ("format", VBuiltin (BUnsupported "string.format")); ("find", VBuiltin (BUnsupported "string.find"));
+   ("format", VBuiltin BStringFormat); ("find", VBuiltin (BUnsupported "string.find"));
    ("match", VBuiltin (BUnsupported "string.match")); ("gsub", VBuiltin (BUnsupported "string.gsub"));
    ("reverse", VBuiltin (BUnsupported "string.reverse"))].
 
